@@ -20,6 +20,7 @@
 //!                                      listener is bound to the port and the sink is flushed twice.
 //!                                      Observation: R|F:<two flush results>|D:<datagrams received after that>|S|A
 //!   ops = comma list of E<hex> (emit) | F (flush) | l (listener down: Unix only) | L (listener up again)
+//!         | s (read MetricSink::stats(); the figures go to |T:<stats>;..  - not part of the model's observation)
 //! observation:  R:<per op: k<n> | e | - >|D:<datagrams received, hex, in order>|S:<bytes_sent>.<packets_sent>.<bytes_dropped>.<packets_dropped>
 //!               |N:<per op: datagrams received so far>   (not part of the model's observation)
 //!   (stats are read after the last op and before the sink is dropped; for q1 through the queuing sink)
@@ -138,6 +139,7 @@ fn run_ops(sink: AnySink, recv: &mut Recv, ops: &str, queued: bool) -> String {
     let mut res = vec![];
     let mut got: Vec<Vec<u8>> = vec![];
     let mut seen: Vec<String> = vec![];      // datagrams received so far, after each op
+    let mut samples: Vec<String> = vec![];   // statistics read by the `s` ops
     for op in ops.split(',') {
         if op == "-" {
             continue;
@@ -158,6 +160,12 @@ fn run_ops(sink: AnySink, recv: &mut Recv, ops: &str, queued: bool) -> String {
                     Ok(()) => "k0".to_string(),
                     Err(_) => "e".to_string(),
                 });
+                recv.drain(&mut got, 0);
+            }
+            "s" => {
+                // reading the statistics in the middle of a history: it must change nothing
+                samples.push(stats_str(&sink.stats()));
+                res.push("-".to_string());
                 recv.drain(&mut got, 0);
             }
             "l" => {
@@ -209,11 +217,12 @@ fn run_ops(sink: AnySink, recv: &mut Recv, ops: &str, queued: bool) -> String {
         let _ = std::fs::remove_file(&p);
     }
     format!(
-        "R:{}|D:{}|S:{}|N:{}",
+        "R:{}|D:{}|S:{}|N:{}{}",
         res.join(","),
         got.iter().map(|d| hex(d)).collect::<Vec<_>>().join(";"),
         stats_str(&st),
-        seen.join(",")
+        seen.join(","),
+        if samples.is_empty() { String::new() } else { format!("|T:{}", samples.join(";")) }
     )
 }
 
